@@ -156,12 +156,15 @@ func (engC15) Gen(r *Rng, s *Script, idx int, tier string) {
 			f = []int{FmtText, FmtText, FmtMD, FmtHTML, FmtJSON, FmtCSV}[r.Intn(6)]
 		}
 		if huge {
-			f = []int{FmtJSON, FmtCSV, FmtJSON}[i]
+			f = []int{FmtJSON, FmtCSV, FmtText}[i]
 		}
 		if tall && !huge {
 			f = []int{FmtText, FmtMD, FmtCSV, FmtJSON, FmtText}[i%5]
 		}
 		st := Step{Op: "render", A: f, B: []int{0, 1, 2, 3, 4, 5, 6, 8, 9}[r.Intn(9)], C: []int{ViaPkg, ViaFresh, ViaFresh, ViaAuto, ViaReused, ViaAutoFn}[r.Intn(6)], D: r.Intn(16) | r.Pick([]int{4, 1, 1, 1, 1})<<4, E: r.Range(1, 99)}
+		if huge && f == FmtText {
+			st.C = ViaReused
+		}
 		if tall {
 			// one wrapper for all faults of the route: every texttable/markdown Wrap
 			// registers one more measuring callback on the table, which over
